@@ -16,6 +16,12 @@ why = {
  'C15-m4': 'the running extreme leaks across input sequences: loop-carried state; no rule models which iteration a local is reset in',
  'C16-m3': 'getParsedKey parses numeric-looking string keys as integers: value-level',
  'C16-m4': 'to_entries reuses the element key when present: value-level (which node supplies the key text)',
+ 'C01-m2': 'reduce over nothing returns the incoming context instead of the initial value: which value an operator yields for an empty operand stream is value-level',
+ 'C01-m3': 'contains() gives up when more items are wanted than present: a length pre-check that is wrong only for repeated / substring-matching wanted items, value-level',
+ 'C06-m5': 'header lines read with ReadSlice instead of ReadString: the difference (a line longer than the 4096-byte buffer is cut) lies in the bufio contract, not in the shape of the caller',
+ 'C13-m6': 'a map listed twice in a merge list is applied once: which occurrence wins is an ordering fact over runtime values',
+ 'C14-m5': 'parseSnippet keeps the original text only for multi-line strings: single-line CSV fields then get the YAML reading of their text; value-level',
+ 'C16-m5': 'padding nulls reuse a node keyed with the requested index; AddChild keeps a key a child already has (the known finding K1), so the stale key survives — the rule that would catch it is the one whose violation on the pinned tree is recorded as known',
  'C18-m4': 'leading content printed only when non-empty: encoder-internal state is then not reset between documents; no rule models the encoder state machine',
 }
 res = {}
